@@ -913,3 +913,99 @@ def s_node_pattern_matches_anynumber(ctx):
 SCENARIOS.append(Scenario("C06.pattern_ir.node_pattern_matches[any number of attributes]", s_node_pattern_matches_anynumber, [(PREL, "NodePattern.matches")],
                           trusted=["AttrPattern.matches / MatchResult.bind answer arbitrarily (uninterpreted functions of the pattern's position): their own contracts are c06_state / c06_matcher"],
                           assumptions=["two loop invariants, each at one arbitrary (Skolem) position; termination not proved"]))
+
+
+# ------------------------------------------------------------------ ReplacementPatternFunction.get_replacement ---
+
+class Tok:
+    def __init__(self, name):
+        self.name = name
+
+    def __repr__(self):
+        return f"<{self.name}>"
+
+
+def s_get_replacement(ctx):
+    """get_replacement: the replacement function is called once with a fresh tape builder and exactly the bindings of the match; its answer is
+    turned into a ReplacementSubgraph holding the match, the outputs IN ORDER (a single value becomes a one-element list), and the nodes /
+    initializers / used opsets recorded by THAT builder; None / False / a falsy MatchResult / MatchFailureError mean 'no replacement' (the
+    latter two fail the match with the reason); a truthy MatchResult is a programming error."""
+    from onnxscript.rewriter import _basics, _rewrite_rule as rr
+    from onnxscript.rewriter import _context
+    I = Interp(ctx)
+    kinds = ["one value", "a tuple of two values", "a list of three values", "None", "False", "a falsy MatchResult", "raises MatchFailureError", "a truthy MatchResult"]
+    kind = kinds[ctx.choose(len(kinds), "the replacement function returns")]
+    tapes = []
+
+    def m_tape(interp, *a, **k):
+        t = SObj(_context.TapeBuilder, "tape")
+        t.fields.update(nodes=Tok(f"nodes{len(tapes)}"), initializers=Tok(f"inits{len(tapes)}"), used_opsets=Tok(f"opsets{len(tapes)}"))
+        tapes.append(t)
+        return t
+    I.models[_context.TapeBuilder] = m_tape
+    vals = [Tok("out0"), Tok("out1"), Tok("out2")]
+    calls = []
+
+    def fn(*a, **k):
+        raise AssertionError
+
+    def m_fn(interp, *a, **k):
+        calls.append((a, dict(k)))
+        if kind == "one value":
+            return vals[0]
+        if kind == "a tuple of two values":
+            return (vals[0], vals[1])
+        if kind == "a list of three values":
+            return list(vals)
+        if kind == "None":
+            return None
+        if kind == "False":
+            return False
+        if kind == "a falsy MatchResult":
+            r = interp.instantiate(_basics.MatchResult, [], {})
+            interp.call(interp.getattr(r, "fail"), ["because"])
+            return r
+        if kind == "raises MatchFailureError":
+            raise PyRaise(_basics.MatchFailureError("because"))
+        return interp.instantiate(_basics.MatchResult, [], {})
+    I.models[fn] = m_fn
+    rpf = SObj(rr.ReplacementPatternFunction, "replacement")
+    rpf.fields["_function"] = fn
+    match = I.instantiate(_basics.MatchResult, [], {})
+    b1, b2 = Tok("bound_x"), Tok("bound_y")
+    I.call(I.getattr(match, "bind"), ["x", b1])
+    I.call(I.getattr(match, "bind"), ["y", b2])
+    made = []
+
+    def m_subgraph(interp, *a, **k):
+        made.append((a, k))
+        return ("subgraph", len(made))
+    I.models[rr.ReplacementSubgraph] = m_subgraph
+    P = "C07.get_replacement."
+    CLR = "C07: 'the matched nodes are replaced by the nodes the replacement function builds, pattern output i by replacement output i'"
+    try:
+        r = I.call(I.getattr(rpf, "get_replacement"), [match])
+    except PyRaise as e:
+        ctx.check(P + "raises_only_for_a_truthy_MatchResult", kind == "a truthy MatchResult" and isinstance(e.exc, TypeError), CLR)
+        return
+    ctx.check(P + "a_truthy_MatchResult_is_refused", kind != "a truthy MatchResult", CLR)
+    ok_call = len(calls) == 1 and len(tapes) == 1 and len(calls[0][0]) == 1 and calls[0][0][0] is tapes[0] and calls[0][1] == {"x": b1, "y": b2}
+    ctx.check(P + "replacement_function_called_once_with_a_fresh_builder_and_exactly_the_bindings", ok_call, CLR)
+    if kind in ("None", "False", "a falsy MatchResult", "raises MatchFailureError"):
+        ctx.check(P + "no_replacement_when_the_function_declines", r is None and not made, CLR)
+        if kind in ("a falsy MatchResult", "raises MatchFailureError"):
+            ctx.check(P + "declining_with_a_reason_fails_the_match", I.truth(match) is False, CLR)
+        return
+    want = {"one value": [vals[0]], "a tuple of two values": [vals[0], vals[1]], "a list of three values": list(vals)}[kind]
+    ok = r == ("subgraph", 1) and len(made) == 1
+    ctx.check(P + "a_replacement_subgraph_is_returned", ok, CLR)
+    if ok and ok_call:
+        a, k = made[0]
+        args = list(a) + [k.get(n) for n in ("match", "new_outputs", "new_nodes", "new_initializers", "used_opsets")][len(a):]
+        ctx.check(P + "subgraph_holds_the_match_and_the_outputs_in_order", args[0] is match and list(args[1]) == want and all(x is y for x, y in zip(args[1], want)), CLR)
+        ctx.check(P + "subgraph_holds_what_this_builder_recorded", args[2] is tapes[0].fields["nodes"] and args[3] is tapes[0].fields["initializers"] and args[4] is tapes[0].fields["used_opsets"], CLR)
+
+
+RREL2 = "onnxscript/rewriter/_rewrite_rule.py"
+SCENARIOS.append(Scenario("C07.get_replacement", s_get_replacement, [(RREL2, "ReplacementPatternFunction.get_replacement")], kind="bounded",
+                          bound="eight kinds of answers of the replacement function; two bindings"))
